@@ -474,5 +474,9 @@ Definition draw_screen (fuel : nat) (ksup ikon konsole : bool) (c : canvas) (inn
 Definition clear_stream (ksup : bool) (s : scr) : list stok * scr := clear_images_all ksup s.
 Definition start_stream (ksup : bool) (inner : list stok) (s : scr) : list stok * scr :=
   let '(o, s') := clear_images_all ksup s in (inner ++ o, s').
-Definition stop_stream (ksup : bool) (inner : list stok) (s : scr) : list stok * scr :=
-  let '(o, s') := clear_images_all ksup s in (o ++ inner, s').
+(** [base_clears]: the base class' _stop() itself calls self.clear() (urwid 2.6:
+    _posix_raw_display.py:214), which is the overridden clear() above *)
+Definition stop_stream (ksup base_clears : bool) (inner : list stok) (s : scr) : list stok * scr :=
+  let '(o1, s1) := clear_images_all ksup s in
+  let '(o2, s2) := if base_clears then clear_stream ksup s1 else ([], s1) in
+  (o1 ++ o2 ++ inner, s2).
